@@ -239,6 +239,8 @@ def cases(tier, seed):
     for base in SWEEP_BASES:
         for steps in (1, 2, 3, 4):
             yield dict(kind='sweep', base=base, steps=steps)
+    for i in range(len(ORDER_CMDS)):
+        yield dict(kind='fieldorder', cmd=i)
     for i in range(len(HASH_CMDS)):
         yield dict(kind='hashorder', cmd=i)
     for i in range(len(PROC_CMDS)):
@@ -252,6 +254,16 @@ SWEEP_BASES = [
     W2 + ['--excitation-pulse=2', '--insulation-load=0.004,2.3,2', '--skin-effect-resistivity=1e-4,1'],
     W2 + ['--excitation-pulse=2', '--rlc-load=5,2e-6,30e-12', '--attach-load=1,4', '--trap-load=2,1e-6,50e-12', '--attach-load=2,6', '--medium=13,0.005,0'],
     ['-w', '4,0,0,0,0.5,0.8,2,0.001', '-w', '5,0.5,0.8,2,2,0.5,2.6,0.002', '--medium=0,0,0', '--excitation-pulse=1', '--laplace-load-a=1,2e-9', '--laplace-load-b=10,3e-6', '--attach-load=1,3'],
+    # both field kinds in one run, a power level for only one of them / for both / distance
+    W2 + ['--excitation-pulse=2', '--near-field=1,2,3,0.5,0.5,0.5,2,1,2', '--option=near-field', '--option=far-field', '--option=far-field-absolute', '--ff-power=100'],
+    W2 + ['--excitation-pulse=2', '--near-field=1,2,3,0.5,0.5,0.5,2,1,2', '--option=near-field', '--option=far-field-absolute', '--nf-power=50', '--ff-distance=1000'],
+    W2 + ['--excitation-pulse=2', '--near-field=1,2,3,0.5,0.5,0.5,2,1,2', '--option=near-field', '--option=far-field', '--nf-power=50', '--ff-power=100', '--rlc-load=5,2e-6,30e-12', '--attach-load=1,4'],
+]
+# requests whose far-field part must not depend on a near field being requested too (and vice versa)
+ORDER_CMDS = [
+    (W2 + ['--excitation-pulse=2'], ['--option=far-field', '--option=far-field-absolute'], ['--near-field=1,2,3,0.5,0.5,0.5,2,1,2', '--option=near-field', '--nf-power=50']),
+    (W2 + ['--excitation-pulse=2'], ['--option=far-field-absolute', '--ff-power=100', '--ff-distance=500'], ['--near-field=1,2,3,0.5,0.5,0.5,2,1,2', '--option=near-field']),
+    (W2 + ['--excitation-pulse=2', '--medium=0,0,0'], ['--option=far-field'], ['--near-field=1,2,3,0.5,0.5,0.5,1,1,2', '--option=near-field', '--nf-power=7']),
 ]
 W3 = ['-w', '3,0,0,1,0.5,0.8,2,0.001', '-w', '3,0.5,0.8,2,2,0.5,2.6,0.002', '-w', '2,0.5,0.8,2,0.3,1.5,1.2,0.001', '-w', '3,5,5,5,5,5,6,0.001']
 HASH_CMDS = [
@@ -394,6 +406,47 @@ def evaluate(c):
                 diff = [(x, y) for x, y in zip(la, lb) if x != y][:2]
                 viol.append(('SWEEP-STEP', 'step %d of a %d-step sweep (f=%g) differs from the fresh single-frequency run: %s' % (i, n, f0 + i * inc, diff)))
         return dict(viol=viol[:4], canon='sweep|%s|%d' % (SWEEP_BASES.index(base), n), nontriv=n > 1, trans=n + 1, traces=n, evals=n + 1, dev=0.0, outcome='sweep')
+    if k == 'fieldorder':
+        base, ffo, nfo = ORDER_CMDS[c['cmd']]
+        ang = ['--theta=10,35,3', '--phi=15,100,3']
+
+        def section(t, start, stops):
+            if start not in t:
+                return None
+            u = t[t.index(start):]
+            cut = [u.index(x, 1) for x in stops if x in u[1:]]
+            return u[:min(cut)] if cut else u
+        outs = {}
+        for name, extra in (('far', ffo), ('near', nfo), ('both', ffo + nfo), ('both-rev', nfo + ffo)):
+            kind, r, o1, e1 = cli.run_main(['-f', '21.3'] + base + ang + extra)
+            if kind != 'ret' or r is not None:
+                return dict(viol=[('ORDER-FAILED', '%s: %s %s %s' % (name, kind, r, (o1 + e1)[-200:]))])
+            outs[name] = o1
+        HF, HN = '*' * 20 + '     FAR FIELD      ', '*' * 20 + '    NEAR FIELDS     '
+
+        def far_part(t):
+            i = t.find(HF)
+            if i < 0:
+                return None
+            j = t.find(HN, i)
+            return t[i:j] if j > i else t[i:]
+
+        def near_part(t):
+            j = t.find(HN)
+            if j < 0:
+                return None
+            i = t.find(HF, j)
+            return t[j:i] if i > j else t[j:]
+        for nm in ('both', 'both-rev'):
+            fa, fb = far_part(outs['far']), far_part(outs[nm])
+            if fa is None or fb is None or fa.strip() != fb.strip():
+                d = [(x, y) for x, y in zip((fa or '').split('\n'), (fb or '').split('\n')) if x != y][:2]
+                viol.append(('ORDER-FAR', 'far-field part of the report changes when a near field is requested in the same run (%s): %s' % (nm, d)))
+            na, nb = near_part(outs['near']), near_part(outs[nm])
+            if na is None or nb is None or na.strip() != nb.strip():
+                d = [(x, y) for x, y in zip((na or '').split('\n'), (nb or '').split('\n')) if x != y][:2]
+                viol.append(('ORDER-NEAR', 'near-field part of the report changes when a far field is requested in the same run (%s): %s' % (nm, d)))
+        return dict(viol=viol[:4], canon='fieldorder|%d' % c['cmd'], nontriv=True, trans=4, traces=4, evals=4, dev=0.0, outcome='fieldorder')
     if k == 'hashorder':
         argv = ['-f', '21.3'] + HASH_CMDS[c['cmd']]
         texts = {}
